@@ -17,10 +17,10 @@ CHECKS = {
    technique="explicit-state BFS over operation histories on the real store; differential oracle between the three access paths and head",
    text="All histories over adversarial topics (empty, prefix-related, 0x01, U+00FF, multi-byte, NUL) and adjacent contexts up to the reported depth; in every quiescent state by-id, all-stream, context-stream and head(topic,context) for the whole alphabet are compared with each other on the real store.",
    note=E1_NOTE),
- "C07": dict(engine="E1-seq", cat="model_checking", ref="DESIGN.md §5 C07",
-   technique="explicit-state BFS over registration/removal/import/append/reopen histories on the real store",
-   text="All histories over register (each TTL), remove, import of registrations (adjacent / older ids), append into zero / registered / removed / never-registered contexts and reopen, up to the reported depth; acceptance must equal usable(ctx) computed from the stored frames, rejected appends leave the raw partitions, the registry and a live subscriber untouched.",
-   note=E1_NOTE),
+ "C07": dict(engine="E1-seq+E2-sched", cat="model_checking", ref="DESIGN.md §5 C07",
+   technique="explicit-state BFS over registration/removal/import/append/reopen histories on the real store; preemption-bounded schedule DFS for unregister vs append",
+   text="All histories over register (each TTL), remove, import of registrations (adjacent / older ids), append into zero / registered / removed / never-registered contexts and reopen, up to the reported depth; acceptance must equal usable(ctx) computed from the stored frames, rejected appends leave the raw partitions, the registry and a live subscriber untouched. Plus (E2) the removal of a registration frame racing one or two appenders into that context under all interleavings of its registry-update / commit steps: no append that began after an observer found the registration gone may be accepted.",
+   note=E1_NOTE + " E2 part: scheduling points are the verif hooks ctx.unregister, commit.pre/post and append.*."),
  "C08": dict(engine="E1-seq", cat="model_checking", ref="DESIGN.md §5 C08/C09",
    technique="explicit-state BFS with the clock and the GC worker as explicit operations, lower-bound (must-be-present) oracle",
    text="All histories over 2 prefix-related topics x 2 contexts x all five TTL spellings with remove, clock positions exp-1/exp/exp+1, read batteries, single GC steps and drains, reopen; every frame that is not removed, not expired and not evictable by the statement must be returned by every in-scope lookup in every state.",
